@@ -25,6 +25,7 @@ import (
 	"compress/gzip"
 	"encoding/json"
 	"fmt"
+	"hash/fnv"
 	"io"
 	"io/fs"
 	"log"
@@ -450,7 +451,20 @@ func runCase(i int, c *config, tc *testCase) *caseObs {
 	return o
 }
 
-func decodeBody(o *caseObs) []byte {
+// decodeBody undoes the response's Content-Encoding (plumbing, not oracle: the
+// result is only searched for canary markers). Responses repeat a lot, so the
+// decoded form is cached per judge.
+func (a *agg) decodeBody(o *caseObs) []byte {
+	if o.enc != "gzip" && o.enc != "br" && o.enc != "zstd" {
+		return nil
+	}
+	h := fnv.New64a()
+	h.Write([]byte(o.enc))
+	h.Write(o.body)
+	k := h.Sum64()
+	if d, ok := a.decoded[k]; ok {
+		return d
+	}
 	var resp fasthttp.Response
 	resp.SetBodyRaw(o.body)
 	var d []byte
@@ -462,11 +476,13 @@ func decodeBody(o *caseObs) []byte {
 		d, err = resp.BodyUnbrotli()
 	case "zstd":
 		d, err = resp.BodyUnzstd()
-	default:
-		return nil
 	}
 	if err != nil {
-		return nil
+		d = nil
+		a.events["bodies_undecodable"]++
+	}
+	if len(a.decoded) < 4096 {
+		a.decoded[k] = d
 	}
 	return d
 }
@@ -514,10 +530,11 @@ type agg struct {
 	viol    map[string]*violAgg
 	samples []any
 	run     int
+	decoded map[uint64][]byte
 }
 
 func newAgg() *agg {
-	return &agg{classes: map[string]*classAgg{}, events: map[string]int{}, viol: map[string]*violAgg{}}
+	return &agg{classes: map[string]*classAgg{}, events: map[string]int{}, viol: map[string]*violAgg{}, decoded: map[uint64][]byte{}}
 }
 
 func (a *agg) violation(i int, key, what string, payload map[string]any) {
@@ -682,7 +699,7 @@ func judge(a *agg, i int, c *config, tc *testCase, o *caseObs, nonce string) {
 	// canaries
 	if len(o.body) > 0 {
 		a.events["bodies_scanned"]++
-		for _, b := range [][]byte{o.body, decodeBody(o)} {
+		for _, b := range [][]byte{o.body, a.decodeBody(o)} {
 			if j := bytes.Index(b, []byte(canaryPrefix)); j >= 0 {
 				m := b[j:]
 				if k := bytes.IndexAny(m, " \n"); k > 0 {
